@@ -1757,6 +1757,9 @@ class Fxp():
         return self._set_array_output_type(_NUMPY_HANDLED_FUNCTIONS[func](*args, **kwargs))
 
     def _wrapped_numpy_func(self, func, *args, **kwargs):
+        # inaccuracy of the Fxp arguments (propagated to the result, as the implemented functions do)
+        inaccuracy = any(isinstance(arg, self.__class__) and arg.status['inaccuracy'] for arg in args)
+
         # convert func inputs to numpy arrays
         args = [np.asarray(arg) if isinstance(arg, self.__class__) else arg for arg in args]
 
@@ -1807,12 +1810,17 @@ class Fxp():
             val = func(*args_converted, **kwargs)
 
         if out is not None:
-            return out(val)
+            result = out(val)
         elif out_like is not None:
-            return self.__class__(val, like=out_like)
+            result = self.__class__(val, like=out_like)
         else:
             # return wrapped result
-            return self.__array_wrap__(val)
+            result = self.__array_wrap__(val)
+
+        if inaccuracy and isinstance(result, self.__class__):
+            result.status['inaccuracy'] = True
+
+        return result
 
     def _set_array_output_type(self, out_arr):
         if self.config._array_output_type == 'fxp':
